@@ -41,6 +41,7 @@ pub fn print_matrix_with_margin(qr: &QRCode) -> String {
     out.push(BOTTOM);
     out.push_str(&line);
     out.push_str(&format!("{BOTTOM}\n"));
+    verif_point!("term:header");
 
     // Black background
     for i in (0..qr.size - 1).step_by(2) {
@@ -48,6 +49,7 @@ pub fn print_matrix_with_margin(qr: &QRCode) -> String {
         out.push(BLOCK);
         out.push_str(&line);
         out.push_str(&format!("{BLOCK}\n"));
+        verif_point!("term:row_pair");
     }
 
     let line = print_line(&qr[qr.size - 1], &[Module::empty(false); 177], qr.size);
